@@ -82,7 +82,7 @@ def pdu_body(repo: Repo, chk: Check, rule: str, qual: str) -> bool:
     r = layout.reader_paths(repo, fr)
     # the security trailer must be the last thing written whenever it is present
     for p in w:
-        has = any(c.info.get("truthy") == "self.sec_trailer" and pol for c, pol in p.conds)
+        has = any(c.info.get("truthy") == "self.sec_trailer" and pol for c, pol in _implied(p.conds))
         last_is_trailer = bool(p.segs) and p.segs[-1].kind == "nested" and p.segs[-1].ref.path == "self.sec_trailer"
         if has and not last_is_trailer:
             problems.append("security trailer is not the last segment written")
@@ -119,3 +119,9 @@ def guarded(fn: t.Callable[[], bool], chk: Check, rule: str, repo: Repo, qual: s
         fn()
     except Unsupported as e:
         raise AnalysisError(f"{qual}: codec left the idiom table: {e}")
+
+
+def _implied(conds: t.Any) -> t.Any:
+    from .c11 import implied
+
+    return implied(conds)
